@@ -140,7 +140,7 @@ func xOf(i int) int {
 func bl(bs ...[]byte) string {
 	s := make([]string, len(bs))
 	for i, b := range bs {
-		s[i] = hx.Bytes(b)
+		s[i] = hx.PackedBytes(b)
 	}
 	return hx.List(s)
 }
